@@ -2,6 +2,7 @@ package interp
 
 import (
 	"bytes"
+	"strings"
 )
 
 // C14 — a reused interpreter behaves like a fresh one.  One inductive step from an arbitrary
@@ -85,3 +86,25 @@ func verifReuse(withResetVars bool) {
 func VerifC14Reset() { verifReuse(true) }
 
 func VerifC14NoResetVars() { verifReuse(false) }
+
+// behavioural probe for the state that is argued unobservable: after an ExecuteContext whose context has
+// since been cancelled, a plain Execute must run commands and long loops as a fresh interpreter does
+func VerifC14StaleContext() {
+	prog := verifParse(`BEGIN { r = system("exit 3"); for (i = 0; i < 1200; i++) n++ }`)
+	p := newInterp(prog)
+	// what ExecuteContext leaves behind
+	verifWithContext(p, true, verifIntRange(0, 1)*(checkContextOps-1))
+	// what Execute does
+	p.resetCore()
+	p.checkCtx = false
+	verifAssert(p.setExecuteConfig(&Config{Stdin: bytes.NewReader(nil), Output: &bytes.Buffer{}, Error: &bytes.Buffer{}, Environ: []string{}, ShellCommand: []string{"/bin/sh", "-c"}}) == nil, "config")
+	if verifInEngine() {
+		verifWaitStatus(3 << 8)
+	}
+	_, err := p.executeAll()
+	verifAssert(err == nil && verifGlobal(p, "n").n == 1200, "a context left over from an earlier ExecuteContext interrupted a plain Execute")
+	verifAssert(verifGlobal(p, "r").n == 3, "a context left over from an earlier ExecuteContext affected a command started by a plain Execute")
+	if verifInEngine() {
+		verifAssert(!strings.Contains(verifEventLog(), "commandcontext"), "a plain Execute started a command with the context of an earlier ExecuteContext")
+	}
+}
